@@ -62,6 +62,9 @@ def tasks(tier):
     out.append({"family": "adaptive", "cfg": {"target": 0.9, "min": 1.0, "max": 5.0, "window": 4,
                                                "fallback_kind": "bound"},
                 "entry": "adaptive", "bound": d - 3, "weight": 2})
+    out.append({"family": "adaptive", "cfg": {"target": 0.9, "min": 1.0, "max": 3.0, "window": 4,
+                                               "fallback_kind": "nested"},
+                "entry": "adaptive", "bound": d - 3, "weight": 2})
     # boundary parameterisations: a target so small that 1 - target rounds to 1.0
     for ts in (1e-300, 2.0 ** -60, 1e-9):
         out.append({"family": "adaptive", "cfg": {"target": ts, "min": 1.0, "max": 5.0, "window": 4},
@@ -260,7 +263,12 @@ def run_adaptive(task, seed):
         clock = E.Clock()
         E.set_clock(clock)
         box = [0.0]
-        if cfg.get("fallback_kind") == "bound":
+        if cfg.get("fallback_kind") == "nested":
+            # the fallback is itself an adaptive strategy with a fixed factor of 2 (min = max = 2):
+            # the outer one scales *that* value
+            fallback = S.adaptive(lambda c: box[0], window_s=W, target_success=0.9,
+                                  min_multiplier=2.0, max_multiplier=2.0, clock=E.v_monotonic)
+        elif cfg.get("fallback_kind") == "bound":
             class _Client:
                 def backoff(self, c):
                     return box[0]
@@ -301,7 +309,7 @@ def run_adaptive(task, seed):
             now, evs, out, st = replay(h2)
             trans += 1
             if ev[0] == "call":
-                fb = ev[1]
+                fb = ev[1] * (2.0 if cfg.get("fallback_kind") == "nested" else 1.0)
                 case = ("adaptive", cfg["target"], cfg["min"], cfg["max"], [list(e) for e in h2])
                 res["nontrivial"].add(hash(repr(case)))
                 if out[0] == "raised":
